@@ -122,6 +122,32 @@ class ClassInfo:
     methods: Dict[str, Unit] = field(default_factory=dict)
 
 
+_SWAPPED = {ast.Lt: ast.Gt, ast.Gt: ast.Lt, ast.LtE: ast.GtE, ast.GtE: ast.LtE,
+            ast.Eq: ast.Eq, ast.NotEq: ast.NotEq}
+
+
+def _is_literal(e: ast.AST) -> bool:
+    if isinstance(e, ast.UnaryOp) and isinstance(e.op, (ast.USub, ast.UAdd)):
+        e = e.operand
+    return isinstance(e, ast.Constant) or \
+        (isinstance(e, ast.Attribute) and dotted(e) in ("np.inf", "numpy.inf", "math.inf"))
+
+
+class _CanonCompare(ast.NodeTransformer):
+    """One spelling for a comparison with a literal: the literal on the right
+    (`0 < x` is read as `x > 0`, `'anti' == order` as `order == 'anti'`), so that rules see the
+    subject of a test on the left whatever the author wrote.  Positions are kept."""
+
+    def visit_Compare(self, node):
+        self.generic_visit(node)
+        if len(node.ops) == 1 and type(node.ops[0]) in _SWAPPED and _is_literal(node.left) \
+                and not _is_literal(node.comparators[0]):
+            new = ast.Compare(left=node.comparators[0], ops=[_SWAPPED[type(node.ops[0])]()],
+                              comparators=[node.left])
+            return ast.copy_location(new, node)
+        return node
+
+
 class Program:
     def __init__(self, repo_root: str):
         self.root = os.path.abspath(repo_root)
@@ -152,6 +178,7 @@ class Program:
                     tree = ast.parse(src, filename=rel)
                 except SyntaxError as e:
                     raise AnalysisError(f"{rel} does not parse: {e}") from e
+                tree = _CanonCompare().visit(tree)
                 short = modname[len(PKG) + 1:] if modname != PKG else ""
                 m = Module(modname, short, rel, tree, src)
                 self._index_imports(m)
